@@ -12,6 +12,8 @@ mod expr;
 mod stmt;
 mod render;
 mod exprfam;
+#[cfg(feature = "full")]
+mod valfam;
 
 pub type Handler = fn(&J) -> J;
 
@@ -33,6 +35,10 @@ fn main() {
         "insert" => exprfam::inscase,
         "tpl" => exprfam::tplcase,
         "stmt" => exprfam::stmtcase,
+        #[cfg(feature = "full")]
+        "value" => valfam::valcase,
+        #[cfg(feature = "full")]
+        "valeq" => valfam::eqcase,
         _ => {
             eprintln!("unknown family {family}");
             std::process::exit(2);
